@@ -255,6 +255,10 @@ func (*BaseNode).ReplaceChild
   ensures [parents] forall w addr {par(w)} :: (w != insertee && w != v1) ==> par(w) == old(par(w))
   modifies all(BaseNode.childCount), all(BaseNode.firstChild), all(BaseNode.lastChild), all(BaseNode.parent), all(BaseNode.next), all(BaseNode.prev)
 
+// block nodes allocate their line list on demand: never nil
+func (*BaseBlock).Lines
+  ensures result != nil
+  modifies b.lines
 @*/
 
 /* Draft, NOT loaded by gvc (the loop invariant is not discharged yet, so no caller may rely on it):
@@ -273,8 +277,4 @@ func (*BaseNode).RemoveChildren
   loop 0 inv forall i int {kid(self, i)} :: (0 <= i && i < klen(self) && c != nil && i >= kidx(c)) ==> (par(kid(self, i)) == self && nxt(kid(self, i)) == old(nxt(kid(self, i))) && prv(kid(self, i)) == (i == kidx(c) ? nil : old(prv(kid(self, i)))))
   loop 0 inv forall w addr {par(w)} :: old(par(w)) != self ==> (par(w) == old(par(w)) && nxt(w) == old(nxt(w)) && prv(w) == old(prv(w)))
   loop 0 inv n.childCount == old(n.childCount) && n.firstChild == old(n.firstChild) && n.lastChild == old(n.lastChild)
-// block nodes allocate their line list on demand: never nil
-func (*BaseBlock).Lines
-  ensures result != nil
-  modifies b.lines
 @*/
